@@ -456,6 +456,27 @@ def link_words(ctx):
            'raw string options are de-duplicated')
 
 
+def soname_chain(ctx):
+    R = 'RPATH-ORIGIN'
+    F = _facts(ctx)
+    po = F.fn('bfg9000.tools.cc.linker:CcSharedLibraryLinker.post_output')
+    cps = F.calls_to(po, 'CopyFile', depth=1)
+
+    def a_(e, i):
+        return e.arg(i)
+    # consumers link against `link` and load `soname` at run time: the
+    # soname symlink is only ever built if the link depends on it
+    made_soname = any(has(a_(e, 1), 'output', 'soname') and
+                      not has(a_(e, 2), 'output', 'soname') for e in cps)
+    link_from_soname = any(has(a_(e, 1), 'output', 'link') and
+                           has(a_(e, 2), 'output', 'soname') for e in cps)
+    ctx.ob(R, 'post_output|link->soname->library', made_soname and
+           link_from_soname, po.node,
+           'the development symlink does not point at the soname symlink: '
+           'nothing depends on lib<name>.so.<N>, it is never built, and '
+           'programs linked against the library fail to load it')
+
+
 def check(ctx):
     ctx.not_decided += [
         'that each executable/shared library links with the real toolchain '
@@ -464,6 +485,7 @@ def check(ctx):
         'dual/whole-archive libraries']
     forward_fields(ctx)
     rpath_origin(ctx)
+    soname_chain(ctx)
     link_words(ctx)
     from . import c12
     c12.relpath_impl(ctx)
